@@ -414,3 +414,5 @@ func isDelegatedDictReplay(decoded, data, dict []byte) bool {
 	}
 	return bytes.Equal(decoded[:len(dict)], dict) && bytes.Equal(decoded[len(dict):], data)
 }
+
+func implErrClass(err error) string { return impl.ErrClass(err) }
